@@ -632,6 +632,7 @@ func checkBBC(p *core.Program, r *core.Report) {
 	checkServiceSends(p, r, bbcPkg, "Connector")
 	checkBBCExpiry(p, r)
 	checkBBCSendWaitsForTheModem(p, r)
+	checkSingleFragmentTransmission(p, r)
 	// Send is called by the Core's handler, the retry job and the agents' submissions at once: the transmission ID is
 	// taken and advanced, and the fragments of one transmission are queued, under one lock - two transmissions with one
 	// ID interleave on the shared medium and every receiver rejects both
@@ -1033,4 +1034,31 @@ func checkBBCSendWaitsForTheModem(p *core.Program, r *core.Report) {
 	r.Min("success returns of Connector.Send", 1)
 	r.Count("success returns of Connector.Send", n)
 	r.Check(waits, "bbc/"+fname(send)+"/waits-for-the-modem", "Connector.Send returns success only after the writer goroutine signalled that the transmission went out (a blocking receive other than the failure channel precedes every nil return)", p.Pos(send.Pos()), "", "Send returns nil as soon as the last fragment is queued: a failure fragment a receiver broadcasts after that is never heard, the bundle is recorded as transmitted and never sent again")
+}
+
+// checkSingleFragmentTransmission: a bundle that fits into one link fragment arrives as a fragment carrying both the
+// start and the end mark - the normal case at LoRa MTUs. ReadFragment never runs for it; the transmission created from
+// its first fragment must therefore take its finished state from that fragment's end mark (and the connector must
+// look at the state after creating it, which bbc/…/report checks).
+func checkSingleFragmentTransmission(p *core.Program, r *core.Report) {
+	nit := p.Func(bbcPkg, "", "NewIncomingTransmission")
+	ok := false
+	core.EachInstr(nit, func(in ssa.Instruction) {
+		st, isSt := in.(*ssa.Store)
+		if !isSt {
+			return
+		}
+		if !pathEndsWith(st.Addr, "finished") {
+			if fa, isFA := st.Addr.(*ssa.FieldAddr); !isFA || derefStructOf(fa.X.Type()) == nil || derefStructOf(fa.X.Type()).Field(fa.Field).Name() != "finished" {
+				return
+			}
+		}
+		if core.DependsOn(st.Val, func(v ssa.Value) bool {
+			c, isC := v.(*ssa.Call)
+			return isC && core.NameIs(core.CalleeName(c), bbcPkg+".Fragment.EndBit") && core.DependsOn(core.CallRecv(c), func(x ssa.Value) bool { return len(nit.Params) > 0 && x == ssa.Value(nit.Params[0]) })
+		}) {
+			ok = true
+		}
+	})
+	r.Check(ok, "bbc/"+fname(nit)+"/finished-from-first-fragment", "a transmission created from its first fragment is finished iff that fragment carries the end mark (single-fragment transmissions are never fed to ReadFragment)", p.Pos(nit.Pos()), "", "finished is not initialised from the first fragment's EndBit(): a bundle that fits into one fragment is neither delivered nor reported as failed, and its entry stays in the connector for ever")
 }
